@@ -10,6 +10,7 @@ C19 — signatures split into complete types; inferred variant types always enco
 """
 import random
 
+from harness import steps
 from harness import gen, ref_codec as R, ref_grammar as G, selfcheck
 from txdbus import interface as I
 from txdbus import marshal as M
@@ -212,11 +213,17 @@ def check_value(ctx, v, case, desc):
             ctx.report(classify_encode(v, sig, e), 'value does not encode under its inferred signature %r: %r' % (sig, e),
                        w, case)
             return
-        try:
-            n2, out = M.unmarshal('v', data, 0, little)
-        except Exception as e:
-            ctx.report(None, 'encoded variant (%r) does not decode: %r' % (sig, e), w, case)
+        # decoded under a step budget (very generous: 4000 interpreter steps per byte): a decoder that spins on what the
+        # encoder wrote would otherwise hang the run instead of being reported
+        outcome, val, _ = steps.METER.run(2000000 + 4000 * len(data), M.unmarshal, 'v', data, 0, little)
+        if outcome == 'budget':
+            ctx.report('decode-does-not-finish', 'decoding the encoded variant (%r, %d bytes) exceeded %d interpreter '
+                       'steps' % (sig, len(data), 2000000 + 4000 * len(data)), w, case)
             return
+        if outcome != 'ok':
+            ctx.report(None, 'encoded variant (%r) does not decode: %r' % (sig, val), w, case)
+            return
+        n2, out = val
         expect = gen.normalise_any(v)
         if not R.plain_eq(out[0], expect):
             w['decoded'] = repr(out[0])[:500]
@@ -277,6 +284,15 @@ def wrappers(ctx):
         check_value(ctx, val, case, 'wrapper ' + name)
         check_value(ctx, [val, val], case, 'list of wrapper ' + name)
         check_value(ctx, (val, 1, 'x'), case, 'tuple with wrapper ' + name)
+    # sizes around the one-byte length of a SIGNATURE: wrapper values and inferred signatures of 126..255 characters
+    for n in (126, 127, 128, 129, 200, 254, 255):
+        case = {'kind': 'long-signature', 'n': n}
+        ctx.count('long_signature_cases')
+        check_value(ctx, M.Signature('i' * n), case, 'Signature wrapper of %d characters' % n)
+        check_value(ctx, [M.Signature('y' * n), M.Signature('ai')], case, 'list with a Signature of %d characters' % n)
+        if n <= 253:
+            check_value(ctx, tuple(range(n)), case, 'tuple of %d integers (inferred signature of %d characters)' % (n, n + 2))
+            check_value(ctx, ('x', tuple('s%d' % k for k in range(n - 3))), case, 'nested wide tuple')
     for v, want in [(True, 'b'), (1, 'i'), (1.5, 'd'), ('s', 's'), (bytearray(b'ab'), 'ay'), ([], 'av'), ({}, 'a{sv}'),
                     ([1, 2], 'ai'), ((1, 's'), '(is)'), ({'a': 1}, 'a{si}'), ([1, 'a'], 'av'), ({'a': 1, 'b': 'x'}, 'a{sv}')]:
         ctx.count('evaluations')
@@ -287,6 +303,7 @@ def wrappers(ctx):
 
 
 def run(ctx):
+    steps.METER.install()
     ctx.note('reference_selfcheck', selfcheck.check_grammar())
     si, sn = ctx.shard or (0, 1)
     bounds = [('iv', 9), ('isv', 7)] if ctx.tier == 'quick' else [('iv', 11), ('isv', 9), ('yqixsvh', 5)]
@@ -355,6 +372,7 @@ def _safe_sig(v):
 
 
 def replay(ctx, rp):
+    steps.METER.install()
     case = rp['case']
     if case['kind'] == 'split':
         check_split(ctx, case['sig'], 'replay')
